@@ -23,9 +23,11 @@ GW_EXTRA = {
     "late_v": {"method": "Variable", "series": [[6, 1.6], [20, 0.6], [9999, 0.9]]},   # first observation after the first simulated day
     "late_c": {"method": "Constant", "series": [[6, 1.6], [20, 0.6]]},
     "early_v": {"method": "Variable", "series": [[-30, 2.5], [15, 0.8], [9999, 1.2]]},  # an observation before the window
+    "early_c": {"method": "Constant", "series": [[-45, 3.0], [-14, 2.5], [15, 0.8], [40, 1.6]]},
+    "all_before_c": {"method": "Constant", "series": [[-60, 2.2], [-20, 1.1]]},
 }
 A.GW.update(GW_EXTRA)
-ALL_GW = ["none", "0.3", "0.8", "1.5", "2.5", "6", "50", "rising_c", "rising_v", "falling_v", "falling_c", "two_v", "four_c", "four_v", "late_v", "late_c", "early_v"]
+ALL_GW = ["none", "0.3", "0.8", "1.5", "2.5", "6", "50", "rising_c", "rising_v", "falling_v", "falling_c", "two_v", "four_c", "four_v", "late_v", "late_c", "early_v", "early_c", "all_before_c"]
 
 
 def scenarios(tier, seed=0):
@@ -97,7 +99,7 @@ def run_far(scn):
 
 def describe(tier):
     return {
-        "rule": "soils x {30x0.1 m profile, default profile that is deepened} x 17 water-table settings (none; constant 0.3-50 m; rising/falling series with "
+        "rule": "soils x {30x0.1 m profile, default profile that is deepened} x 19 water-table settings (none; constant 0.3-50 m; rising/falling series with "
                 "2-4 observations, held constant or interpolated; series whose first observation is after / before the first simulated day) x crops x "
                 "irrigation x words; theta_fc <= theta_fc_adj <= theta_s (and = theta_fc when the table is >= 2 m below the centre) on every groundwater "
                 "check, capillary-rise cap around every capillary_rise call, saturation below the table (true centres) after every transition, z_gw = "
